@@ -100,6 +100,46 @@ CHECKS['C08'] = dict(
     technique='property-based testing (Hypothesis) with statistical '
               'differential oracle (G-test vs rejection sampling, z-test)')
 
+CHECKS['C01'] = dict(
+    category='exploration', design_ref='DESIGN.md §2 (C01)',
+    text='Hypothesis-generated likelihoods (10 families incl. non-nested '
+         'funnel, -inf regions, plateaus, periodic wrap), configurations and '
+         'run/resume histories with a checkpoint file; the membership '
+         'predicate (in cube, in own bound, outside every later bound, '
+         'shell_association agrees, no row in two shells or pending and '
+         'stored) is evaluated on all stored points after every add_bound, '
+         'add_samples, write, write_shell_update and operation: tens of '
+         'thousands of observation instants and millions of rows per run.',
+    note='d<=5, <=12 bound constructions and <=150 batches per case; tiny '
+         'networks; uses the bounds\' own contains() as the predicate.',
+    technique='property-based testing (Hypothesis) of generated histories '
+              'with an invariant oracle at every observation point')
+CHECKS['C02'] = dict(
+    category='exploration', design_ref='DESIGN.md §3 (C02)',
+    text='Same generated histories plus discard toggles and -inf families; '
+         'at every observation point shell counts, volumes, log_z, n_eff, '
+         'eta and posterior() weights/order are compared with an independent '
+         're-derivation from the raw stored arrays (split between '
+         'exploration and sampling rows taken from the harness\'s own '
+         'record), and the bookkeeping arrays are checked for alignment.',
+    note='Tolerance 1e-9 relative on log quantities, 1e-7 on n_eff/eta; '
+         'trusts bounds[i].log_v as the bound volume.',
+    technique='property-based testing (Hypothesis), differential against an '
+              'independent reference implementation of the estimators')
+CHECKS['C03'] = dict(
+    category='exploration', design_ref='DESIGN.md §4 (C03)',
+    text='Product of evaluation mode x argument form x 9 blob kinds x batch '
+         'size (1 weighted high) x prior kinds (incl. in-place modifying '
+         'function, dict function, Prior with fixed/linked keys) x pools x '
+         'histories with transfers, toggles and resumes; every posterior row '
+         'is looked up in the call log of the instrumented pure likelihood '
+         '(bit-equal log L and blob), rows distinct, lengths/dtype right.',
+    note='Pool modes are checked by re-evaluating the pure likelihood; blob '
+         'dtypes limited to what HDF5 stores; vectorized + integer pool is '
+         'excluded (nautilus calls the worker stub in the parent).',
+    technique='property-based testing (Hypothesis) with call-log oracle of '
+              'an instrumented pure likelihood')
+
 NOT_YET = {}
 
 
